@@ -88,6 +88,30 @@ func (check typecheck) assignExpr(n, dest, src *node) error {
 	return check.binaryExpr(n)
 }
 
+// operationResult checks that the result of the unary or binary operation n, whose type is given by
+// its operands, can be assigned to a destination of type typ. It is called before the operation takes
+// the type of the destination to store its result directly at the location of the destination.
+func (check typecheck) operationResult(n *node, typ *itype, context string) error {
+	t := n.child[0].typ
+	switch {
+	case typ == nil || isInterface(typ):
+		return nil
+	case isComparison(n):
+		// The result of a comparison is an untyped boolean.
+		if isBool(typ) {
+			return nil
+		}
+		t = check.scope.getType("bool")
+	case t.untyped && n.kind == binaryExpr && !isShiftNode(n):
+		t = n.child[1].typ
+	}
+	if t.untyped || t.assignableTo(typ) {
+		// The type of an operation on untyped operands is given by the destination.
+		return nil
+	}
+	return n.cfgErrorf("cannot use type %s as type %s in %s", t.id(), typ.id(), context)
+}
+
 // addressExpr type checks a unary address expression.
 func (check typecheck) addressExpr(n *node) error {
 	c0 := n.child[0]
